@@ -157,6 +157,15 @@ def run(ctx):
                 else:
                     why = f"rows are selected by {[T.show(m)[:80] for m in masks]}, expected isfinite(log_prior of the drawn set)"
             ctx.decide(mask_ok, "C10.init", construct, loc, "only finite-prior rows are kept, by one mask, and appended by concatenation", why, disc="mask")
+            # accumulation happens whenever at least one row was kept, first round replaces None
+            if acc is not None and acc[0] == "phi":
+                nv_ = T.app("int", T.app("sum", T.app("isfinite", lp_v))) if lp_v is not None else None
+                c_ = acc[1]
+                okp = nv_ is not None and c_ == ("cmp", ">", nv_) and T.select(acc, c_, False) == head_s
+                inner_ = T.select(acc, c_, True)
+                okn = inner_[0] == "phi" and inner_[1] == ("is", head_s, T.NONE) and T.select(inner_, inner_[1], True)[0] == "s"
+                ctx.decide(okp and okn, "C10.init", construct, loc, "rows are accumulated whenever a round kept at least one; the first round starts the population",
+                           f"accumulation is conditioned on {T.show(c_)[:100]} / {T.show(inner_[1])[:80] if inner_[0] == 'phi' else 'no first-round case'}", disc="when")
             # counter
             cb = lp["body"].get(cname) if cname else None
             okc = False
@@ -185,6 +194,19 @@ def run(ctx):
             okr = ret == arg and ev.heap.get((arg, "log_likelihood")) is not None and is_call_on(ev.heap[(arg, "log_likelihood")], "_log_likelihood", arg)
             ctx.decide(okr, "C10.init", construct, loc_of(di, lk[0].node), "the likelihood of the final set is stored on it and that set is returned",
                        "the returned set is not the one whose likelihood was evaluated and stored", disc="final")
+
+    # ------------------------------------------------------------ final enlargement: resample at beta=1 to the requested size, then mutate
+    from .smcloop import fold_sample
+    sfe = fold_sample(repo, resumed=False, final=True)
+    smp_ = smc.methods["sample"]
+    rs_ = [e for e in sfe.events("method:resample", in_loop=False)]
+    mu_ = [e for e in sfe.events(".mutate", in_loop=False)]
+    oke = len(rs_) == 1 and len(mu_) == 1 and rs_[0].args[1] == T.ONE and dict(rs_[0].kwargs).get("n_samples") == T.atom("n_final_samples") \
+        and mu_[0].args[0] == rs_[0].result and mu_[0].args[1] == T.ONE
+    post = sfe.ev.last_state.env.get("samples")
+    ctx.decide(oke and post == (mu_[0].result if mu_ else None), "C10.final", smp_.ident, loc_of(smp_, rs_[0].node if rs_ else None),
+               "enlargement: the final population is mutate(resample(population, 1.0, n_final_samples), 1.0), so its densities are re-evaluated",
+               "the final-sample enlargement does not return mutate(resample(population, beta=1, size=n_final_samples), beta=1)")
 
     # ------------------------------------------------------------ (x, log_q) pairs elsewhere
     n_pairs = 0
@@ -247,6 +269,11 @@ MUTANTS = [
     M("initial: keeps unfiltered rows", _MC, "samples = new_samples[valid]\n                else:", "samples = new_samples\n                else:", "C10.init"),
     M("importance: log_q from another draw", _I, "x, log_q = self.prior_flow.sample_and_log_prob(n_samples)", "x, _ = self.prior_flow.sample_and_log_prob(n_samples)\n        log_q = self.prior_flow.sample_and_log_prob(n_samples)[1]", "C10.pair"),
     M("coordinates overwritten in place", _MP, "samples.log_q = samples.array_to_namespace(\n            self.prior_flow.log_prob(samples.x)\n        )", "samples.log_q = samples.array_to_namespace(\n            self.prior_flow.log_prob(samples.x)\n        )\n        samples.x = samples.x + 0.0", ("C10.wx", "C10.mut")),
+]
+MUTANTS += [
+    M("initial: accumulates only empty rounds", _MC, "if n_valid > 0:", "if n_valid <= 0:", "C10.init"),
+    M("enlargement returns the unmutated resample", "src/aspire/samplers/smc/base.py", "samples = self.mutate(final_samples, 1.0, n_steps=n_final_steps)", "samples = final_samples", "C10.final"),
+    M("enlargement resamples at the wrong temperature", "src/aspire/samplers/smc/base.py", "final_samples = samples.resample(\n                1.0, n_samples=n_final_samples, rng=self.rng\n            )", "final_samples = samples.resample(\n                beta, n_samples=n_final_samples, rng=self.rng\n            )", "C10.final"),
 ]
 NEUTRALS = [
     M("minipcn: log_q via temporary", _MP, "samples.log_q = samples.array_to_namespace(\n            self.prior_flow.log_prob(samples.x)\n        )", "lq = self.prior_flow.log_prob(samples.x)\n        samples.log_q = samples.array_to_namespace(lq)"),
